@@ -262,7 +262,17 @@ func runC19(em *vEmitter, r *vRng) {
 		startedBefore := len(c19ReadLog(log))
 		second := time.Now()
 		h.Notify <- true
-		time.Sleep(2*rate + 400*time.Millisecond)
+		// with many hooks a round takes longer than the rate limit: wait until no hook has been started for
+		// two intervals (the trailing round follows the timer, which is armed when the first round is done)
+		lastN, lastChange := -1, time.Now()
+		for time.Since(second) < 15*time.Second {
+			time.Sleep(50 * time.Millisecond)
+			if n := len(c19ReadLog(log)); n != lastN {
+				lastN, lastChange = n, time.Now()
+			} else if time.Since(lastChange) > 2*rate+400*time.Millisecond {
+				break
+			}
+		}
 		allLines := c19ReadLog(log)
 		rounds := 0
 		uncovered := 0
